@@ -2,6 +2,7 @@ package worlds
 
 import (
 	"os"
+	"strings"
 
 	"crypto/md5"
 	"fmt"
@@ -33,7 +34,8 @@ type classicWorld struct {
 	clients      []*clientModel
 	seq          int
 	seg          simnet.SegMode
-	clientWindow int // bytes in flight on client links (0 = simnet default); set before addClient
+	panics       []string // 'recovered panic' lines of gate's log, see capturePanics
+	clientWindow int      // bytes in flight on client links (0 = simnet default); set before addClient
 	connN        int
 	dialLog      []dialRec
 }
@@ -158,3 +160,17 @@ func (w *classicWorld) settle(d time.Duration) string {
 }
 
 func simrtSleep(d time.Duration) { simrt.Sleep(d, "harness.sleep") }
+
+// capturePanics records every panic gate's read loops recover (they are only logged):
+// scenarios that opt in report them, because a handler that panics on peer input silently
+// drops that input.
+func (w *classicWorld) capturePanics() {
+	w.p.VerifSetLogger(funcr.New(func(prefix, args string) {
+		if strings.Contains(args, "recovered panic") {
+			w.panics = append(w.panics, args)
+		}
+		if w.r.Replay && os.Getenv("VSIM_GATELOG") != "" {
+			w.r.Logf("gate: %s %s", prefix, args)
+		}
+	}, funcr.Options{Verbosity: 0}))
+}
